@@ -1,9 +1,21 @@
-(* Properties/C09.v — LU and PLU factorisation.  Statements only. *)
+(* Properties/C09.v — LU (Doolittle, no pivoting) and PLU (partial pivoting).
+   Statements only; every proof is `exact` of a lemma of Proofs/LU.v or Proofs/PLU.v.
+   All statements are about the R instance of the model functions [lu] and [plu]
+   of Model/LU.v (the functions that are extracted and run against the Rust code);
+   rounding (finiteness, the n*eps*|L||U| bound, "well-scaled non-singular matrices
+   are always factored") is measured by the correspondence oracle, not proved.
+   Vocabulary (Proofs/LU.v): [msum lo len f] = f lo + .. + f (lo+len-1);
+   [mprod n A B i j] = sum_t A i t * B t j;  [unit_lower], [upper_tri];
+   [is_perm_mat n P]: P i j = [j = s i] for a permutation s of 0..n-1;
+   [left_null k A w]: w is a non-zero vector with w^T * (leading k x k block of A) = 0,
+   i.e. that block is singular (its determinant, the leading minor of order k, is 0);
+   [right_null k A x]: the same with (block) * x = 0. *)
 From Coq Require Import ZArith List Arith Reals Lia.
 From SV Require Import Base.Num Base.Outcome Base.Mat Model.LU Proofs.LU Proofs.PLU.
 Import ListNotations.
 Local Open Scope R_scope.
 
+(* non-square input is rejected by both routines *)
 Theorem c09_nonsquare : forall (h w : nat) (A : mat R), h <> w ->
   lu h w A = Err ENonSquareMatrix /\ plu h w A = Err ENonSquareMatrix.
 Proof. exact Proofs.PLU.c09_nonsquare. Qed.
@@ -11,5 +23,99 @@ Check c09_nonsquare : forall (h w : nat) (A : mat R), h <> w ->
   lu h w A = Err ENonSquareMatrix /\ plu h w A = Err ENonSquareMatrix.
 Print Assumptions c09_nonsquare.
 
-Example c09_nonvacuous_shape : (2 <> 3)%nat.
-Proof. lia. Qed.
+(* PLU: shape of the factors and the pivoting guarantee |l_ij| <= 1 *)
+Theorem c09_plu_shape : forall (n : nat) (A L U P : mat R), plu n n A = Ok (L, U, P) ->
+  unit_lower n L /\ upper_tri n U /\ is_perm_mat n P /\
+  (forall i j, (i < n)%nat -> (j < n)%nat -> Rabs (L i j) <= 1).
+Proof. exact Proofs.PLU.c09_plu_shape. Qed.
+Check c09_plu_shape : forall (n : nat) (A L U P : mat R), plu n n A = Ok (L, U, P) ->
+  unit_lower n L /\ upper_tri n U /\ is_perm_mat n P /\
+  (forall i j, (i < n)%nat -> (j < n)%nat -> Rabs (L i j) <= 1).
+Print Assumptions c09_plu_shape.
+
+(* PLU: L U = P A *)
+Theorem c09_plu_reconstruct : forall (n : nat) (A L U P : mat R), plu n n A = Ok (L, U, P) ->
+  forall i j, (i < n)%nat -> (j < n)%nat -> mprod n L U i j = mprod n P A i j.
+Proof. exact Proofs.PLU.c09_plu_reconstruct. Qed.
+Check c09_plu_reconstruct : forall (n : nat) (A L U P : mat R), plu n n A = Ok (L, U, P) ->
+  forall i j, (i < n)%nat -> (j < n)%nat -> mprod n L U i j = mprod n P A i j.
+Print Assumptions c09_plu_reconstruct.
+
+(* PLU: every pivot of a returned U is at least EPSILON in absolute value, in particular non-zero *)
+Theorem c09_plu_pivots : forall (n : nat) (A L U P : mat R), plu n n A = Ok (L, U, P) ->
+  forall i, (i < n)%nat -> neps <= Rabs (U i i) /\ U i i <> 0.
+Proof. exact Proofs.PLU.c09_plu_pivots. Qed.
+Check c09_plu_pivots : forall (n : nat) (A L U P : mat R), plu n n A = Ok (L, U, P) ->
+  forall i, (i < n)%nat -> neps <= Rabs (U i i) /\ U i i <> 0.
+Print Assumptions c09_plu_pivots.
+
+(* PLU: a singular matrix (one with a non-trivial left null vector: zero row, repeated
+   row, zero column, ...) is reported as SingularMatrix *)
+Theorem c09_plu_singular : forall (n : nat) (A : mat R) (w : nat -> R),
+  left_null n A w -> plu n n A = Err ESingularMatrix.
+Proof. exact Proofs.PLU.c09_plu_singular. Qed.
+Check c09_plu_singular : forall (n : nat) (A : mat R) (w : nat -> R),
+  left_null n A w -> plu n n A = Err ESingularMatrix.
+Print Assumptions c09_plu_singular.
+
+(* ... and so is one with a non-trivial right null vector (zero column, repeated column, ...) *)
+Theorem c09_plu_singular_right : forall (n : nat) (A : mat R) (x : nat -> R),
+  right_null n A x -> plu n n A = Err ESingularMatrix.
+Proof. exact Proofs.PLU.c09_plu_singular_right. Qed.
+Check c09_plu_singular_right : forall (n : nat) (A : mat R) (x : nat -> R),
+  right_null n A x -> plu n n A = Err ESingularMatrix.
+Print Assumptions c09_plu_singular_right.
+
+(* LU without pivoting (after the repair d464535): shape and L U = A *)
+Theorem c09_lu_reconstruct : forall (n : nat) (A L U : mat R), lu n n A = Ok (L, U) ->
+  unit_lower n L /\ upper_tri n U /\
+  forall i j, (i < n)%nat -> (j < n)%nat -> mprod n L U i j = A i j.
+Proof. exact Proofs.LU.c09_lu_reconstruct. Qed.
+Check c09_lu_reconstruct : forall (n : nat) (A L U : mat R), lu n n A = Ok (L, U) ->
+  unit_lower n L /\ upper_tri n U /\
+  forall i j, (i < n)%nat -> (j < n)%nat -> mprod n L U i j = A i j.
+Print Assumptions c09_lu_reconstruct.
+
+(* LU: the outcome is SingularMatrix or a pair whose U has non-zero pivots except possibly
+   the last one; never a panic, never a division by zero *)
+Theorem c09_lu_pivots : forall (n : nat) (A : mat R),
+  lu n n A = Err ESingularMatrix \/
+  exists L U, lu n n A = Ok (L, U) /\ forall i, (S i < n)%nat -> U i i <> 0.
+Proof. exact Proofs.LU.c09_lu_pivots. Qed.
+Check c09_lu_pivots : forall (n : nat) (A : mat R),
+  lu n n A = Err ESingularMatrix \/
+  exists L U, lu n n A = Ok (L, U) /\ forall i, (S i < n)%nat -> U i i <> 0.
+Print Assumptions c09_lu_pivots.
+
+(* LU: a vanishing leading principal minor of order k, 0 < k < n, is refused *)
+Theorem c09_lu_zero_minor : forall (n k : nat) (A : mat R) (w : nat -> R),
+  (0 < k < n)%nat -> left_null k A w -> lu n n A = Err ESingularMatrix.
+Proof. exact Proofs.LU.c09_lu_zero_minor. Qed.
+Check c09_lu_zero_minor : forall (n k : nat) (A : mat R) (w : nat -> R),
+  (0 < k < n)%nat -> left_null k A w -> lu n n A = Err ESingularMatrix.
+Print Assumptions c09_lu_zero_minor.
+
+Theorem c09_lu_zero_minor_right : forall (n k : nat) (A : mat R) (x : nat -> R),
+  (0 < k < n)%nat -> right_null k A x -> lu n n A = Err ESingularMatrix.
+Proof. exact Proofs.LU.c09_lu_zero_minor_right. Qed.
+Check c09_lu_zero_minor_right : forall (n k : nat) (A : mat R) (x : nat -> R),
+  (0 < k < n)%nat -> right_null k A x -> lu n n A = Err ESingularMatrix.
+Print Assumptions c09_lu_zero_minor_right.
+
+(* LU: ... and that is the only reason for a refusal: lu returns SingularMatrix exactly when
+   some leading principal block of order < n is singular (otherwise it returns factors) *)
+Theorem c09_lu_err_iff_minor : forall (n : nat) (A : mat R),
+  lu n n A = Err ESingularMatrix <-> exists k w, (0 < k < n)%nat /\ left_null k A w.
+Proof. exact Proofs.LU.c09_lu_err_iff_minor. Qed.
+Check c09_lu_err_iff_minor : forall (n : nat) (A : mat R),
+  lu n n A = Err ESingularMatrix <-> exists k w, (0 < k < n)%nat /\ left_null k A w.
+Print Assumptions c09_lu_err_iff_minor.
+
+(* non-vacuity: both routines succeed on concrete 2x2 inputs ([[0,1],[1,0]] forces a row
+   interchange), and [[0,1],[1,0]] satisfies the hypotheses of c09_lu_zero_minor *)
+Example c09_nonvacuous_plu : exists L U P, plu 2 2 ex_swap = Ok (L, U, P).
+Proof. exact Proofs.PLU.ex_plu_ok. Qed.
+Example c09_nonvacuous_lu : exists L U, lu 2 2 ex_lu = Ok (L, U).
+Proof. exact Proofs.LU.ex_lu_ok. Qed.
+Example c09_nonvacuous_zero_minor : (0 < 1 < 2)%nat /\ left_null 1 ex_swap (fun _ => 1).
+Proof. split; [lia|exact Proofs.LU.ex_swap_left_null]. Qed.
